@@ -112,6 +112,36 @@ theorem plain_options_combined (o : Opts) (m : KMat) (ho : plainOptions o) (h : 
     (convert o m).map core = (expected o m).map core := by
   exact Conv.plain_options_combined_main o m ho h hr
 
+/-! ## renaming with the `*` forms -/
+
+/-- the pattern has its `*` (if any) only as last or only as first character, and is not the lone `*` in front of nothing -/
+def plainPattern (old : String) : Prop :=
+  let o := old.toList
+  o ≠ [] ∧ (∀ c ∈ o.dropLast.drop 1, c ≠ '*') ∧ ¬ (o.head? = some '*' ∧ o.getLast? = some '*' ∧ 2 ≤ o.length)
+
+/-- `rename_frame` (two independent `if`s and an `elif`) does what the documentation says for such patterns: replace the prefix,
+replace the suffix, or rename the frame of exactly that name - for names without `*` (identifier-style names) -/
+theorem renameFrameName_documented (old new name : String) (hp : plainPattern old) (hn : '*' ∉ name.toList) :
+    renameFrameName old new name = sRenameName old new name := by
+  exact Conv.renameFrameName_documented_of_noStar old new name hp hn
+
+/-- without that hypothesis the statement is false: the exact comparison of `rename_frame` looks at the already renamed name, so a
+frame called `A*` is renamed twice by the pattern `A*` -/
+theorem renameFrameName_needs_star_free_names :
+    renameFrameName "A*" "A" "A*" ≠ sRenameName "A*" "A" "A*" :=
+  Conv.renameFrameName_documented_false
+
+/-- `--renameFrame` alone -/
+theorem renameFrame_alone (m : KMat) (old new : String) (hp : plainPattern old) (hn : ∀ f ∈ m.frames, '*' ∉ f.name.toList) :
+    (convert { renameFrame := some [(old, new)] } m).map core = (expected { renameFrame := some [(old, new)] } m).map core := by
+  exact Conv.renameFrame_alone_of_noStar m old new hp hn
+
+/-- `--renameSignal` with a `*` form alone (the exact form is `renameSignal_exact_alone`) -/
+theorem renameSignal_pattern_alone (m : KMat) (old new : String) (hp : plainPattern old)
+    (hs : old.toList.getLast? = some '*' ∨ old.toList.head? = some '*') :
+    (convert { renameSignal := some [(old, new)] } m).map core = (expected { renameSignal := some [(old, new)] } m).map core := by
+  exact Conv.renameSignal_pattern_main m old new hp hs
+
 /-! ## thresholds and lengths -/
 
 /-- `skipLongDlc = t`: a frame stays iff its length is at most `t` (the boundary length stays) -/
